@@ -227,7 +227,9 @@ def history_bound(ctx, variant):
         for fn in funcs:
             w.add_worker(fn, beh)
         e = w.start_event(sm, "e", {"i": 0})
-        w.run(max_steps=400000)
+        eng0 = next(iter(w.engines.values()))
+        # stop as soon as the bound (plus generous slack) has clearly been passed: an unbounded run is the violation
+        w.run(max_steps=2000000, until=lambda world: len(eng0.se.execution_history.get(e) or []) > L_HIST + 300)
         st_, out, err, t = w.outcome(e)
         eng = next(iter(w.engines.values()))
         n = len(eng.se.execution_history.get(e) or [])
